@@ -171,6 +171,22 @@ func (x *datasetExec) check(nd *dnode, qs []engine.F64, reads int, sig string) {
 		if absF < 1e300 && math.Abs(sum-want) > tol+1e-290 {
 			x.fail("sum", sig, "Sum is not accurate to rounding", fmt.Sprintf("%v +- %v", want, tol), fmt.Sprint(sum))
 		}
+		// beyond that a partial sum may overflow; what stays certain: an infinity needs contributions of
+		// that sign near the float64 range, NaN needs both (an overflowed sum reads as its infinity)
+		posAbs, negAbs := 0.0, 0.0
+		for _, v := range sorted {
+			if v > 0 {
+				posAbs += v
+			} else {
+				negAbs -= v
+			}
+		}
+		switch {
+		case math.IsNaN(sum) && !(posAbs >= 1e300 && negAbs >= 1e300):
+			x.fail("sum", sig, "Sum is NaN although the values of one sign never come near the float64 range", "a number or one infinity", "NaN")
+		case math.IsInf(sum, 1) && posAbs < 1e300, math.IsInf(sum, -1) && negAbs < 1e300:
+			x.fail("sum", sig, "Sum is an infinity that the values of that sign never come near", fmt.Sprint(want), fmt.Sprint(sum))
+		}
 	}
 	for _, qf := range qs {
 		q := float64(qf)
@@ -258,8 +274,20 @@ func GenDatasetWorld(r *engine.PRNG, run int, tier string) *engine.Plan {
 		opsLeft = r.Range(12, 80)
 	}
 	regime := r.Intn(4)
+	if r.Pct(2) {
+		// one or two values of 2^54 or more among hundreds that are smaller than their rounding unit:
+		// the sum is right only if what each small addend contributes is carried along
+		regime = 4
+		opsLeft = r.Range(300, 900)
+		p.Config["values"] = "drizzle"
+	}
 	value := func() float64 {
 		switch regime {
+		case 4:
+			if r.Pct(1) || counts[1]+counts[nNodes] == 0 {
+				return []float64{0x1p55, -0x1p54, 0x1p60, 3e16}[r.Intn(4)]
+			}
+			return []float64{1, 1, 0.5, 2, 3, 0.25}[r.Intn(6)]
 		case 0:
 			return float64(r.Range(-20, 20))
 		case 1:
@@ -267,7 +295,7 @@ func GenDatasetWorld(r *engine.PRNG, run int, tier string) *engine.Plan {
 		case 2:
 			return math.Float64frombits(r.Uint64()&0x7fefffffffffffff) * []float64{1, -1}[r.Intn(2)]
 		default:
-			return []float64{0, math.Copysign(0, -1), 1, -1, 1e300, -1e300, 5e-324, 2.5, 2.5, 7}[r.Intn(10)]
+			return []float64{0, math.Copysign(0, -1), 1, -1, 1e300, -1e300, 5e-324, 2.5, 2.5, 7, -math.MaxFloat64, math.MaxFloat64, -math.MaxFloat64 / 2, 0x1p55, -0x1p54, 1}[r.Intn(16)]
 		}
 	}
 	emit := func(e engine.Event) {
